@@ -1,5 +1,5 @@
 (* C31: the PathMatch::match loop computes the executable specification
-   (rsearch) on every pattern of the class star_ok; fast paths. *)
+   (rsearch) on every pattern; fast paths. *)
 From CV Require Import Base.Bytes Base.Glob Path.Defs.
 Local Open Scope N_scope.
 
@@ -57,17 +57,6 @@ Lemma rmatch_lit real c s1 t : (c =? STAR) = false -> (c =? QM) = false ->
   rmatch real (c :: s1) t = match t with c' :: t' => (c =? c') && rmatch real s1 t' | [] => false end.
 Proof. intros Hs Hq. cbn [rmatch]. rewrite Hs, Hq. reflexivity. Qed.
 
-Lemma star_ok_star s1 :
-  star_ok (STAR :: s1) = lit_or_end (snd (star_split s1)) && star_ok (snd (star_split s1)).
-Proof.
-  cbn [star_ok]. change (STAR =? STAR) with true. cbn iota.
-  destruct s1 as [|c1 s2]; [reflexivity|].
-  cbn [star_split]. destruct (c1 =? STAR); reflexivity.
-Qed.
-
-Lemma star_ok_nonstar c s1 : (c =? STAR) = false -> star_ok (c :: s1) = star_ok s1.
-Proof. intros H. cbn [star_ok]. rewrite H. reflexivity. Qed.
-
 Lemma star_any_unfold f t :
   star_any f t = f t || match t with [] => false | _ :: t' => star_any f t' end.
 Proof. destruct t; reflexivity. Qed.
@@ -83,47 +72,37 @@ Definition alts (real : bool) (stk : list (str * str)) : bool :=
 Definition sem (real : bool) (p : str) (st : mstate) : bool :=
   rmatch real (ms st) (mt st) || alts real (mstk st) || rrest real p (mq st).
 
-Definition stk_ok (stk : list (str * str)) : bool := forallb (fun e => star_ok (fst e)) stk.
-
-Definition wf (p : str) (st : mstate) : Prop :=
-  star_ok (ms st) = true /\ stk_ok (mstk st) = true /\ star_ok p = true.
-
 (* ---------- the star loop ---------- *)
-Lemma star_loop_stk_ok slash s2 : star_ok s2 = true -> forall t stk,
-  stk_ok stk = true -> stk_ok (snd (star_loop slash s2 t stk)) = true.
-Proof.
-  intros Hs2. induction t as [|c t IH]; intros stk Hstk; cbn [star_loop]; [exact Hstk|].
-  destruct (slash || negb (c =? SL)); [|exact Hstk].
-  apply IH. destruct (opt_is (hd_error s2) c); [|exact Hstk].
-  cbn [stk_ok forallb fst]. rewrite Hs2. exact Hstk.
-Qed.
-
-Lemma star_loop_lit real slash c0 s2' : (c0 =? STAR) = false -> (c0 =? QM) = false ->
-  forall t stk,
+(* every position at which the rest of the pattern could match is pushed:
+   all of them when the next pattern character is a wildcard, those with the
+   same character when it is a literal *)
+Lemma star_loop_cons real slash c0 s2' : forall t stk,
   star_x slash (rmatch real (c0 :: s2')) t || alts real stk =
   rmatch real (c0 :: s2') (fst (star_loop slash (c0 :: s2') t stk))
   || alts real (snd (star_loop slash (c0 :: s2') t stk)).
 Proof.
-  intros Hs Hq. induction t as [|c t IH]; intros stk.
+  induction t as [|c t IH]; intros stk.
   - cbn [star_loop fst snd]. destruct slash; cbn [star_x star_any star_ns]; rewrite orb_false_r; reflexivity.
   - cbn [star_loop]. destruct (slash || negb (c =? SL)) eqn:Hgo.
-    + rewrite <- IH. cbn [hd_error opt_is].
+    + rewrite <- IH. cbn [hd_error opt_is next_wild].
       assert (Hx : star_x slash (rmatch real (c0 :: s2')) (c :: t) =
                    rmatch real (c0 :: s2') (c :: t) || star_x slash (rmatch real (c0 :: s2')) t).
       { destruct slash; cbn [star_x].
         - rewrite star_any_unfold. reflexivity.
         - rewrite star_ns_unfold. cbn [orb] in Hgo. destruct (c =? SL); [discriminate|reflexivity]. }
-      rewrite Hx. destruct (c0 =? c) eqn:Hc.
+      rewrite Hx.
+      destruct ((c0 =? QM) || (c0 =? STAR) || (c0 =? c)) eqn:Hpush.
       * cbn [alts existsb fst snd].
         destruct (rmatch real (c0 :: s2') (c :: t)), (star_x slash (rmatch real (c0 :: s2')) t); reflexivity.
-      * rewrite (rmatch_lit real c0 s2' (c :: t) Hs Hq). rewrite Hc. reflexivity.
+      * apply orb_false_iff in Hpush. destruct Hpush as [Hw Hc]. apply orb_false_iff in Hw. destruct Hw as [Hq Hs].
+        rewrite (rmatch_lit real c0 s2' (c :: t) Hs Hq). rewrite Hc. reflexivity.
     + cbn [fst snd]. destruct slash; [discriminate|]. cbn [orb] in Hgo. cbn [star_x].
       rewrite star_ns_unfold. destruct (c =? SL); [|discriminate]. rewrite orb_false_r. reflexivity.
 Qed.
 
 Lemma star_loop_nil_stk slash t stk : snd (star_loop slash [] t stk) = stk.
 Proof. revert stk. induction t as [|c t IH]; intros stk; cbn [star_loop]; [reflexivity|].
-  destruct (slash || negb (c =? SL)); [|reflexivity]. cbn [hd_error opt_is]. apply IH. Qed.
+  destruct (slash || negb (c =? SL)); [|reflexivity]. cbn [hd_error opt_is next_wild orb]. apply IH. Qed.
 
 Lemma star_loop_nil_any t stk : fst (star_loop true [] t stk) = [].
 Proof. revert stk. induction t as [|c t IH]; intros stk; cbn [star_loop]; [reflexivity|]. cbn [orb]. apply IH. Qed.
@@ -141,17 +120,16 @@ Proof.
     + cbn [end_ok]. rewrite Hc. cbn [andb orb]. apply IH.
 Qed.
 
-Lemma star_loop_spec real slash s2 t stk : lit_or_end s2 = true ->
+Lemma star_loop_spec real slash s2 t stk :
   star_x slash (rmatch real s2) t || alts real stk =
   rmatch real s2 (fst (star_loop slash s2 t stk)) || alts real (snd (star_loop slash s2 t stk)).
 Proof.
-  intros Hl. destruct s2 as [|c0 s2'].
+  destruct s2 as [|c0 s2'].
   - rewrite star_loop_nil_stk. f_equal. change (rmatch real []) with (end_ok real).
     destruct slash; cbn [star_x].
     + rewrite star_loop_nil_any. apply star_any_end.
     + apply star_loop_nil_ns.
-  - cbn [lit_or_end] in Hl. apply negb_true_iff, orb_false_iff in Hl. destruct Hl as [Hs Hq].
-    apply star_loop_lit; assumption.
+  - apply star_loop_cons.
 Qed.
 
 (* ---------- failing ---------- *)
@@ -173,76 +151,65 @@ Proof.
   cbn [rrest drop_nonsep]. destruct (x =? SL); [reflexivity|exact IH].
 Qed.
 
-Lemma fail_step_sem real p st : wf p st -> rmatch real (ms st) (mt st) = false ->
+Lemma fail_step_sem real p st : rmatch real (ms st) (mt st) = false ->
   match fail_step p st with
-  | More st' => wf p st' /\ sem real p st' = sem real p st
+  | More st' => True /\ sem real p st' = sem real p st
   | Done b => b = sem real p st
   end.
 Proof.
-  intros (Hs & Hk & Hp) Hm. unfold fail_step, sem. rewrite Hm. cbn [orb].
+  intros Hm. unfold fail_step, sem. rewrite Hm. cbn [orb].
   destruct (mstk st) as [|[s' t'] stk] eqn:Hstk.
   - cbn [alts existsb orb]. rewrite (rrest_drop real p (mq st)).
     destruct (drop_nonsep (mq st)) as [|c q2] eqn:Hd; [reflexivity|].
     apply drop_nonsep_sl in Hd. subst c. change (SL =? SL) with true. cbn iota.
-    split.
-    + unfold wf. cbn [ms mt mq mstk stk_ok forallb]. auto.
-    + cbn [ms mt mq mstk alts existsb]. rewrite orb_false_r. reflexivity.
-  - split.
-    + unfold wf. cbn [ms mt mq mstk]. cbn [stk_ok forallb fst] in Hk.
-      apply andb_true_iff in Hk. destruct Hk as [Hk1 Hk2]. auto.
-    + cbn [ms mt mq mstk alts existsb fst snd]. reflexivity.
+    split; [exact I|]. cbn [ms mt mq mstk alts existsb]. rewrite orb_false_r. reflexivity.
+  - split; [exact I|]. cbn [ms mt mq mstk alts existsb fst snd]. reflexivity.
 Qed.
 
 (* ---------- one iteration of for(;;) ---------- *)
-Lemma step_sem real p st : wf p st ->
+Lemma step_sem real p st : True ->
   match step real p st with
-  | More st' => wf p st' /\ sem real p st' = sem real p st
+  | More st' => True /\ sem real p st' = sem real p st
   | Done b => b = sem real p st
   end.
 Proof.
-  intros Hwf. pose proof Hwf as (Hs & Hk & Hp). unfold step.
+  intros _. unfold step.
   destruct (ms st) as [|c s1] eqn:Hms.
   - destruct (end_ok real (mt st)) eqn:He.
     + unfold sem. rewrite Hms. change (rmatch real [] (mt st)) with (end_ok real (mt st)). rewrite He. reflexivity.
-    + apply fail_step_sem; [exact Hwf|]. rewrite Hms. exact He.
+    + apply fail_step_sem. rewrite Hms. exact He.
   - destruct (c =? STAR) eqn:Hcs.
-    + apply N.eqb_eq in Hcs. subst c. rewrite star_ok_star in Hs.
-      apply andb_true_iff in Hs. destruct Hs as [Hl Hs2].
-      destruct (star_split s1) as [slash s2] eqn:Hsp. cbn [fst snd] in Hl, Hs2.
+    + apply N.eqb_eq in Hcs. subst c.
+      destruct (star_split s1) as [slash s2] eqn:Hsp.
       destruct (star_loop slash s2 (mt st) (mstk st)) as [t' stk'] eqn:Hlp.
-      split.
-      * unfold wf. cbn [ms mt mq mstk]. repeat split; [exact Hs2| |exact Hp].
-        replace stk' with (snd (star_loop slash s2 (mt st) (mstk st))) by (rewrite Hlp; reflexivity).
-        apply star_loop_stk_ok; assumption.
-      * unfold sem. cbn [ms mt mq mstk]. rewrite Hms. rewrite rmatch_star. rewrite Hsp. cbn [fst snd].
-        rewrite (star_loop_spec real slash s2 (mt st) (mstk st) Hl). rewrite Hlp. reflexivity.
-    + rewrite (star_ok_nonstar c s1 Hcs) in Hs. destruct (c =? QM) eqn:Hcq.
+      split; [exact I|].
+      unfold sem. cbn [ms mt mq mstk]. rewrite Hms. rewrite rmatch_star. rewrite Hsp. cbn [fst snd].
+      rewrite (star_loop_spec real slash s2 (mt st) (mstk st)). rewrite Hlp. reflexivity.
+    + destruct (c =? QM) eqn:Hcq.
       * apply N.eqb_eq in Hcq. subst c.
         destruct (mt st) as [|c' t'] eqn:Hmt.
-        -- apply fail_step_sem; [exact Hwf|]. rewrite Hms, Hmt. reflexivity.
+        -- apply fail_step_sem. rewrite Hms, Hmt. reflexivity.
         -- destruct (negb (c' =? SL)) eqn:Hn.
-           ++ split; [unfold wf; cbn [ms mt mq mstk]; auto|].
+           ++ split; [exact I|].
               unfold sem. cbn [ms mt mq mstk]. rewrite Hms, Hmt. rewrite rmatch_qm. rewrite Hn. reflexivity.
-           ++ apply fail_step_sem; [exact Hwf|]. rewrite Hms, Hmt. rewrite rmatch_qm. rewrite Hn. reflexivity.
+           ++ apply fail_step_sem. rewrite Hms, Hmt. rewrite rmatch_qm. rewrite Hn. reflexivity.
       * destruct (mt st) as [|c' t'] eqn:Hmt.
-        -- apply fail_step_sem; [exact Hwf|]. rewrite Hms, Hmt. rewrite (rmatch_lit real c s1 [] Hcs Hcq). reflexivity.
+        -- apply fail_step_sem. rewrite Hms, Hmt. rewrite (rmatch_lit real c s1 [] Hcs Hcq). reflexivity.
         -- destruct (c =? c') eqn:Hcc.
-           ++ split; [unfold wf; cbn [ms mt mq mstk]; auto|].
+           ++ split; [exact I|].
               unfold sem. cbn [ms mt mq mstk]. rewrite Hms, Hmt. rewrite (rmatch_lit real c s1 (c' :: t') Hcs Hcq).
               rewrite Hcc. reflexivity.
-           ++ apply fail_step_sem; [exact Hwf|]. rewrite Hms, Hmt.
+           ++ apply fail_step_sem. rewrite Hms, Hmt.
               rewrite (rmatch_lit real c s1 (c' :: t') Hcs Hcq). rewrite Hcc. reflexivity.
 Qed.
 
 (* Whatever the fuel: if the loop answers, the answer is the specification *)
-Theorem match_loop_spec fuel real s t b : star_ok s = true ->
+Theorem match_loop_spec fuel real s t b :
   match_loop fuel real s t = Some b -> b = rsearch real s t.
 Proof.
-  intros Hs H. unfold match_loop in H.
-  pose proof (run_pos_inv (step real s) (wf s) (sem real s) (fun b : bool => b) (step_sem real s) fuel
-                (mkM s t t [])) as Hinv.
-  assert (Hwf : wf s (mkM s t t [])) by (unfold wf; cbn [ms mt mq mstk stk_ok forallb]; auto).
-  specialize (Hinv Hwf).
+  intros H. unfold match_loop in H.
+  pose proof (run_pos_inv (step real s) (fun _ => True) (sem real s) (fun b : bool => b) (step_sem real s) fuel
+                (mkM s t t []) I) as Hinv.
   destruct (run_pos (step real s) fuel (mkM s t t [])) as [st'|r]; [discriminate|].
   injection H as <-. rewrite Hinv. unfold sem, rsearch. cbn [ms mt mq mstk alts existsb]. rewrite orb_false_r. reflexivity.
 Qed.
@@ -341,12 +308,11 @@ Proof. reflexivity. Qed.
 
 (* PathMatch::match as a whole, against the executable specification *)
 Theorem pathmatch_fuel_spec_iter_b fuel pattern path base isdir b :
-  star_ok (iter_pattern pattern base) = true ->
   fast_ok pattern base = true ->
   pathmatch_fuel fuel pattern path base isdir = Some b ->
   b = pathmatch_spec_iter_b pattern path base isdir.
 Proof.
-  intros Hok Hfast H. unfold pathmatch_fuel in H. unfold pathmatch_spec_iter_b.
+  intros Hfast H. unfold pathmatch_fuel in H. unfold pathmatch_spec_iter_b.
   destruct (is_nil pattern) eqn:Hnil.
   - injection H as <-. reflexivity.
   - cbn [negb andb].
@@ -358,5 +324,5 @@ Proof.
       * injection H as <-. apply andb_true_iff in Hfp. destruct Hfp as [Hdm Heq].
         apply str_eqb_eq in Heq. subst path. apply negb_true_iff in Hdm.
         unfold path_seen. rewrite Hdm. rewrite <- (fast_same pattern base Hfast). symmetry. apply rsearch_refl.
-      * apply (match_loop_spec fuel _ _ _ b Hok H).
+      * apply (match_loop_spec fuel _ _ _ b H).
 Qed.
